@@ -9,6 +9,8 @@ from depsim.runner import Violation, add_set, bump, digest
 class C09(ParserSessionProp):
     id = 'C09'
     scale_every = {'quick': 300, 'thorough': 100}
+    # no cubic reference is needed for this property: sentences beyond 1024 and 2048 words as well
+    very_long_lengths = (255, 256, 257, 300, 511, 512, 513, 640, 1023, 1024, 1025, 1300, 2049)
     families = FAMILIES_ALL
     max_len = 10
     fault_classes = ('none', 'inband')
